@@ -36,6 +36,7 @@ type c16Case struct {
 	Layers      []c16Layer
 	Base        string // HTTP carriers: base path on both sides ("" = "/")
 	ClientBidi  bool   // the client opens streams with a {client,server}-streaming descriptor whatever the method's flags (as generic proxies do)
+	LateInt     bool   // in-process: the channel's interceptors are configured after the service was registered
 	NoSlash     bool   // the client names the method without the leading slash (both transports accept that); interceptors are still told the canonical name
 	Shared      bool   // the same decorated description is registered with a second carrier that has its own transport interceptors
 	TUnary2     string
@@ -374,17 +375,28 @@ func propC16(c c16Case) *Outcome {
 			directDesc, _ = hm.QueryService(c16Svc)
 		case cInproc:
 			ch := &inprocgrpc.Channel{}
-			if tu != nil {
-				ch.WithServerUnaryInterceptor(tu)
+			configure := func() {
+				if tu != nil {
+					ch.WithServerUnaryInterceptor(tu)
+				}
+				if ts != nil {
+					ch.WithServerStreamInterceptor(ts)
+				}
 			}
-			if ts != nil {
-				ch.WithServerStreamInterceptor(ts)
+			if !c.LateInt {
+				configure()
 			}
 			r := wrapReg(ch)
 			if r == nil {
 				return o.failf("WithInterceptor with no interceptors returned a different registry")
 			}
 			r.RegisterService(d, srvObj)
+			if c.LateInt {
+				// the channel's interceptors are a property of the channel, consulted per call: configuring
+				// them after the services were registered makes no difference
+				o.class("interceptors-configured-after-registration")
+				configure()
+			}
 			conn = ch
 		case cHTTP, cHTTPMux:
 			var h http.Handler
@@ -574,6 +586,7 @@ func genC16(t *rapid.T) c16Case {
 	c.HandlerFail = rapid.IntRange(0, 4).Draw(t, "hfail") == 0
 	c.ClientBidi = rapid.IntRange(0, 2).Draw(t, "clientbidi") == 0
 	c.NoSlash = rapid.IntRange(0, 4).Draw(t, "noslash") == 0
+	c.LateInt = rapid.IntRange(0, 3).Draw(t, "lateint") == 0
 	if c.Carrier == cHTTP || c.Carrier == cHTTPMux {
 		c.Base = rapid.SampledFrom([]string{"", "", "/api/", "/v1/rpc"}).Draw(t, "base")
 	}
@@ -589,6 +602,7 @@ func init() { registerReplay("C16", propC16) }
 
 const c16Rule = "rapid-generated: descriptor (1..4 unary + 1..4 stream methods, all flag combinations) x 0..3 decoration layers via InterceptServer / WithInterceptor, each with nil or non-nil unary and stream interceptors x transport-level interceptors nil or set x behaviour per interceptor (pass, short-circuit error, short-circuit response, rewrite request, rewrite response, rewrite error) x handler ok/fail, dispatched directly on the decorated descriptor, through the in-process channel, httpgrpc.Server and HandleServices; " +
 	"oracle = model interpreter: ordered event log (transport interceptor, decorations outermost first, handler iff everybody calls onward; full method names and stream flags as logged by the interceptors) and final response/status must be equal; snapshot of the original ServiceDesc unchanged; no interceptors => same pointer; " +
+	"also generated since the seeded rounds: the same decorated description on a second carrier, non-root base paths, interceptors deriving a context (markers must be visible downstream), clients opening streams with a bidi descriptor whatever the method's flags, slashless method names on the in-process channel; " +
 	"non-trivial = >=2 interceptors in the chain or a short-circuit; distinct by case hash"
 
 func TestC16(t *testing.T) {
